@@ -4,16 +4,16 @@
    Code modelled: core/visitors/{struct,enum,alias,typedecl,type.usage}.visitor.go (which
    declarations get materialised in the symbol graph), core/metadata/{struct,field,enum,alias}.go
    (Reduce), core/pipeline/pipeline.go getModels (sorting), generator/swagen/spec_manager.go
-   (Rfc7807Error appended, 3.0 always built first), swagen30/models_generator.go +
-   spec_common.go + validatation_converter.go (shared *openapi3.Schema values: a usage-site
-   `oneof`/`enum` rule applied through a $ref mutates the component), swagen31/models_generator31.go
-   + spec_common31.go (references are skipped), swagtool/spec_helpers.go (ToOpenApiType,
-   GetJsonNameFromTag, IsFieldRequired, AppendErrorSchema), swagen30/paths_generator.go.
+   (Rfc7807Error appended, 3.0 always built and validated first), swagen30/models_generator.go +
+   spec_common.go + validatation_converter.go, swagen31/models_generator31.go + spec_common31.go
+   (both skip usage-site validation on a $ref since the F9 fix), swagtool/spec_helpers.go
+   (ToOpenApiType, GetJsonNameFromTag, IsFieldRequired, AppendErrorSchema),
+   swagen30/paths_generator.go.
 
-   The model describes the tree with the fixes F17 (unexported / json:"-" fields are not part of
-   the model) and F22 (a json tag without a name keeps the field name) applied; F6, F9, F16, F18
-   are modelled as they are.  F19: the 3.1 emitter writes string enum values as untagged YAML
-   scalars; the model covers the values YAML resolves to strings (see [enum_value]). *)
+   The model describes the tree with the fixes F9 (in /repo), F17 (unexported / json:"-" fields
+   are not part of the model) and fix-C07-json-tag-without-name (such a tag keeps the field name) applied;
+   F6, F16, F18 are modelled as they are.  The 3.1 emitter writes string enum values as
+   untagged YAML scalars; the model covers the values YAML resolves to strings (see [enum_value]). *)
 From Gleece Require Import Base.Bytes Base.Sorting Model.Project Model.Spec.
 From Coq Require Import String.
 Open Scope list_scope.
@@ -85,7 +85,7 @@ Record dconfig := mkDConfig {
 Record universe := mkUniverse { u_cfg : dconfig; u_decls : list decl; u_ctrls : list ctrl }.
 
 (* ------------------------------------------------------------------ *)
-(* JSON visibility and names (struct.visitor.go getFieldMeta with F17; GetJsonNameFromTag with F22) *)
+(* JSON visibility and names (struct.visitor.go getFieldMeta with F17; GetJsonNameFromTag with fix-C07-json-tag-without-name) *)
 
 Definition is_upper (b : byte) : bool :=
   let n := Byte.to_N b in N.leb 65 n && N.leb n 90.
@@ -213,22 +213,9 @@ Fixpoint schema_of_texpr (t : texpr) : schema :=
 (* Validation strings (BuildSchemaValidation / BuildSchemaValidationV31) *)
 
 Definition eq_byte : byte := "="%byte.
-Definition bar_byte : byte := "|"%byte.
-Definition space_byte : byte := " "%byte.
-
 Definition rule_name (r : str) : str := match split_on eq_byte r with n :: _ => n | [] => [] end.
 
-(* strings.SplitN(rule, "=", 2)[1] *)
-Fixpoint after_eq (r : str) : str :=
-  match r with
-  | [] => []
-  | c :: t => if beqb c eq_byte then t else after_eq t
-  end.
-
 Definition rules_of (v : str) : list str := split_on comma v.
-
-(* strings.Fields for blanks *)
-Definition fields_of (v : str) : list str := filter (fun x => negb (is_nil x)) (split_on space_byte v).
 
 (* the format rules, which only apply when the declared type prints as "string" *)
 Definition format_of_rule (n : str) : option str :=
@@ -306,7 +293,7 @@ Definition is_string_base (b : str) : bool := str_eqb (openapi_type b) (s "strin
 (* generateEnumSpec (3.0: every value is a JSON string - F18) / generateEnumsSpec (3.1: an
    untagged YAML scalar, resolved by its text: numbers and booleans for the numeric and boolean
    kinds; for the string kind the text is assumed to resolve to a string - letters, digits,
-   blank, dash, underscore, no YAML keyword - other texts come out retyped, F19) *)
+   blank, dash, underscore, no YAML keyword - other texts come out retyped: known finding C07-string-enum-retyped-by-yaml-31) *)
 Definition enum_value (v : dialect) (base : str) (text : str) : evalue :=
   match v with
   | V30 => EStr text
@@ -356,59 +343,6 @@ Definition component (v : dialect) (d : decl) : comp :=
   | DAlias rhs => alias_comp rhs
   end.
 
-(* ---- the 3.0 write-through (F9) ---- *)
-
-(* the rules that assign schema.Value.Enum whatever the declared type is *)
-Definition touches_rule (r : str) : bool :=
-  let n := rule_name r in
-  str_eqb n (s "enum") || (str_eqb n (s "oneof") && negb (is_nil (fields_of (after_eq r)))).
-
-Definition touches (validate : str) : bool := existsb touches_rule (rules_of validate).
-
-Definition apply_enum_rule (cur : option (list evalue)) (r : str) : option (list evalue) :=
-  let n := rule_name r in
-  if str_eqb n (s "enum") then
-    match split_on bar_byte (after_eq r) with
-    | [] :: _ => None
-    | vals => Some (match cur with Some l => l | None => [] end ++ map EStr vals)
-    end
-  else if str_eqb n (s "oneof") then
-    match fields_of (after_eq r) with
-    | [] => cur
-    | vals => Some (map EStr vals)      (* specType of a named type is "object": the default branch *)
-    end
-  else cur.
-
-Definition apply_enum_rules (cur : option (list evalue)) (validate : str) : option (list evalue) :=
-  fold_left apply_enum_rule (rules_of validate) cur.
-
-Definition with_enum (c : comp) (e : option (list evalue)) : comp :=
-  {| k_type := k_type c; k_props := k_props c; k_required := k_required c; k_allof := k_allof c;
-     k_enum := e |}.
-
-(* a usage whose schema is a bare reference, with its validation string; None = nil dereference
-   (the referenced component has not been generated yet) *)
-Definition write_through (t : table) (sch : schema) (validate : str) : option table :=
-  match sch with
-  | SRef n =>
-      if touches validate then
-        match lookup t n with
-        | Some c => Some (set_comp t n (with_enum c (apply_enum_rules (k_enum c) validate)))
-        | None => None
-        end
-      else Some t
-  | _ => Some t
-  end.
-
-Definition emit_struct30 (acc : option table) (name : str) (fs : list field) : option table :=
-  match fold_left (fun a f => match a with
-                              | Some t => write_through t (schema_of_texpr (f_type f)) (f_validate f)
-                              | None => None
-                              end) (plain_fields fs) acc with
-  | Some t => Some (set_comp t name (struct_comp fs))
-  | None => None
-  end.
-
 (* ---- the standard error model (swagtool.AppendErrorSchema) ---- *)
 
 Definition rfc_name : str := s "Rfc7807Error".
@@ -455,22 +389,18 @@ Definition sorted_enums (u : universe) : list decl := sort_by d_name (filter is_
 Definition sorted_structs (u : universe) : list decl := sort_by d_name (filter is_struct (reached_decls u)).
 Definition alias_decls (u : universe) : list decl := filter is_alias (reached_decls u).
 
-Definition models_table (v : dialect) (u : universe) : option table :=
-  let t0 := fold_left (fun t d => set_comp t (d_name d) (component v d)) (sorted_enums u) [] in
-  let t1 :=
-    match v with
-    | V30 => fold_left (fun a d => emit_struct30 a (d_name d) (struct_fields d)) (sorted_structs u) (Some t0)
-    | V31 => Some (fold_left (fun t d => set_comp t (d_name d) (component v d)) (sorted_structs u) t0)
-    end in
-  let t2 :=
-    match t1 with
-    | Some t => Some (if plain_error_present u then set_comp t rfc_name rfc_comp else t)
-    | None => None
-    end in
-  match t2 with
-  | Some t => Some (fold_left (fun t d => set_comp t (d_name d) (component v d)) (alias_decls u) t)
-  | None => None
-  end.
+Definition set_decls (v : dialect) (l : list decl) (t : table) : table :=
+  fold_left (fun t d => set_comp t (d_name d) (component v d)) l t.
+
+Definition with_rfc (u : universe) (t : table) : table :=
+  if plain_error_present u then set_comp t rfc_name rfc_comp else t.
+
+(* components.schemas of the document of the given dialect: GenerateModelsSpec (enums, structs with
+   the error model appended last, aliases).  Usage-site validation never reaches a component: both
+   converters return at once on a $ref *)
+Definition components (v : dialect) (u : universe) : table :=
+  set_decls v (alias_decls u)
+            (with_rfc u (set_decls v (sorted_structs u) (set_decls v (sorted_enums u) []))).
 
 (* ------------------------------------------------------------------ *)
 (* Operations *)
@@ -583,40 +513,20 @@ Definition same_slot_d (a b : dop) : bool :=
 Definition set_dop (l : list dop) (o : dop) : list dop :=
   filter (fun x => negb (same_slot_d x o)) l ++ [o].
 
-(* createRouteParam / createRequestBodyParam / createRequestFormParam in 3.0 run
-   BuildSchemaValidation on the shared value too *)
-Definition route_write_through (acc : option table) (cr : ctrl * route) : option table :=
-  fold_left (fun a p => match a with
-                        | Some t => write_through t (schema_of_texpr (rp_type p)) (rp_reduced p)
-                        | None => None
-                        end) (r_params (snd cr)) acc.
-
 Definition security_ok (u : universe) : bool :=
   forallb (fun cr => forallb (fun x => scheme_declared (u_cfg u) (sc_name x))
                              (eff_security (u_cfg u) (fst cr) (snd cr)))
           (shown_routes u).
 
-(* components.schemas as the document of the given dialect ends up with; None = the run dies
-   (nil dereference) before anything is written *)
-Definition components (v : dialect) (u : universe) : option table :=
-  match v with
-  | V30 => fold_left route_write_through (shown_routes u) (models_table V30 u)
-  | V31 => models_table V31 u
-  end.
-
-(* the document of a dialect before the library validators look at it; the 3.0 document is
-   always built first *)
+(* the document of a dialect before the library validators look at it; None = an operation names
+   a security scheme the configuration does not declare *)
 Definition emit (v : dialect) (u : universe) : option doc :=
   if negb (security_ok u) then None else
-  match components V30 u, components v u with
-  | Some _, Some t =>
-      Some {| doc_title := dc_title (u_cfg u); doc_version := dc_version (u_cfg u);
-              doc_servers := [dc_base_url (u_cfg u)];
-              doc_schemes := dc_schemes (u_cfg u);
-              doc_ops := fold_left set_dop (map (fun cr => mk_dop (u_cfg u) (fst cr) (snd cr)) (shown_routes u)) [];
-              doc_comps := t |}
-  | _, _ => None
-  end.
+  Some {| doc_title := dc_title (u_cfg u); doc_version := dc_version (u_cfg u);
+          doc_servers := [dc_base_url (u_cfg u)];
+          doc_schemes := dc_schemes (u_cfg u);
+          doc_ops := fold_left set_dop (map (fun cr => mk_dop (u_cfg u) (fst cr) (snd cr)) (shown_routes u)) [];
+          doc_comps := components v u |}.
 
 (* ---- gleece's own link validation (core/validators/annotation.link.validator.go): only the
    method's own @Route is inspected; a @Path without an explicit name is never compared with it ---- *)
@@ -779,12 +689,23 @@ Definition lib_model_ok_v (v : dialect) (d : doc) : bool :=
 
 Inductive outcome := Wrote (d : doc) | Failed.
 
-(* the command: the file is written only after gleece's validators and the library validators
-   (an oracle) accepted *)
-Definition cmd (lib_ok : doc -> bool) (v : dialect) (u : universe) : outcome :=
+(* the command: gleece's validators first; then the 3.0 document is built and checked by
+   kin-openapi whatever the configured version is; a 3.1 document is then built and checked by
+   libopenapi.  The file is written only after all of them accepted.  The library validators
+   are oracles *)
+Definition cmd (lib30 lib31 : doc -> bool) (v : dialect) (u : universe) : outcome :=
   if negb (gleece_accepts u) then Failed else
-  match emit v u with
-  | Some d => if lib_ok d then Wrote d else Failed
+  match emit V30 u with
+  | Some d30 =>
+      if lib30 d30 then
+        match v with
+        | V30 => Wrote d30
+        | V31 => match emit V31 u with
+                 | Some d31 => if lib31 d31 then Wrote d31 else Failed
+                 | None => Failed
+                 end
+        end
+      else Failed
   | None => Failed
   end.
 
